@@ -419,7 +419,7 @@ func C01() *engine.Check {
 	return &engine.Check{
 		Property: "C01",
 		Level:    "model_checking",
-		Subs:     []*engine.Sub{c01Sub("principal-alignment", "sound", 3, 4), c01SealedSub("sealed-tokens-through-container", "sound", 2, 3), c01FormsSub(), c01CollideSub(), clockSub("C01"), longChainSub("C01"), authConcSub("C01"), concRaceSub("C01")},
+		Subs:     []*engine.Sub{c01Sub("principal-alignment", "sound", 3, 4), c01SealedSub("sealed-tokens-through-container", "sound", 2, 3), c01FormsSub(), c01CollideSub(), c01NearSub(), clockSub("C01"), longChainSub("C01"), authConcSub("C01"), concRaceSub("C01")},
 		Assumptions: []string{
 			"three distinct Ed25519 principals; DIDs are used by the validator only through ==",
 			"principal-alignment: tokens are unsigned in-memory values served by a harness delegation.Loader (signature checking is C06's business); sealed-tokens-through-container: the same universe with every token signed, encoded, carried in a CAR container and decoded again",
